@@ -4,8 +4,9 @@ package main
 //
 // Phase 1 (implementation only): fault enumeration on the real sumdb.Client over in-process ClientOps
 // (util_client.go), judged by the oracles of util_cloracle.go against the true logs.
-// The scenarios are `client.run …` lines (replayable with `corr impl`); they have no model counterpart
-// until the Lean client model exists, so Gen emits none of them — everything is done in Oracle.
+// The scenarios are `client.run …` lines (replayable with `corr impl`).
+// Phase 2 (correspondence): Gen cuts the same scenario runs into replay sessions (`client.lookup`, util_clreplay.go) that
+// the Lean sequential client model (lean/ModVerif/Model/Client.lean) must answer identically.
 
 import (
 	"bytes"
@@ -21,36 +22,142 @@ func init() {
 }
 
 func c01Gen(g *Gen, n int) {
-	// `client.lookup` correspondence ops are emitted here once the Lean client model exists (see lean/PENDING.md).
-	// Until then: the stored-head / in-memory-head part of faulty sequential runs is validated against the Lean
-	// latest-head machine with a hostile verification layer (`client.trace … hostile=1`).
+	// `client.lookup`: every client instance of a scenario run (the faulty instance and the restarted one) becomes one
+	// replay session — the answers the real Client was given, in order, per file — on which the Lean sequential client
+	// model (Model/Client.lean) must produce the same results, the same WriteCache/WriteConfig/SecurityError calls
+	// and the same multiset of reads.  Sessions are additionally mutated at the replay level (write conflicts, lost
+	// answers, bit flips in answers, GONOSUMDB lists).
+	// `client.trace`: the stored-head / in-memory-head part of the same runs is validated against the Lean latest-head
+	// machine with a hostile verification layer (`hostile=1`).
 	wseed := g.U64()%1000 + 1
 	for emitted := 0; emitted < n; {
 		N := 1 + g.Intn(12)
 		h := 1 + g.Intn(2)
 		id := g.Intn(N)
-		var cases []c01Case
-		c01Enumerate(g.Rand, wseed, N, h, id, func(c c01Case) { cases = append(cases, c) })
-		if len(cases) == 0 {
+		byKind := map[string][]c01Case{}
+		var kinds []string
+		c01Enumerate(g.Rand, wseed, N, h, id, func(c c01Case) {
+			k := c.tag
+			if i := strings.LastIndexByte(k, '/'); i >= 0 && strings.HasPrefix(k, "fault/") {
+				k = "fault/" + k[i+1:]
+			}
+			if _, ok := byKind[k]; !ok {
+				kinds = append(kinds, k)
+			}
+			byKind[k] = append(byKind[k], c)
+		})
+		if len(kinds) == 0 {
 			continue
 		}
-		for k := 0; k < 40 && emitted < n; k++ {
-			c := cases[g.Intn(len(cases))]
+		for k := 0; k < 12 && emitted < n; k++ {
+			cs := byKind[kinds[g.Intn(len(kinds))]]
+			c := cs[g.Intn(len(cs))]
 			sc, ok := clParseScenario(strings.Fields(c.line)[1:])
 			if !ok {
 				continue
 			}
 			out := clRunScenario(sc)
-			emitted++
 			if out.bad || out.hang {
+				emitted++
 				continue
+			}
+			kind := strings.SplitN(c.tag, "/", 2)[0]
+			if kind == "fault" {
+				kind = c.tag[strings.LastIndexByte(c.tag, '/')+1:]
+			}
+			for si, s := range clSessions(out) {
+				role := "faulty"
+				if c.honest {
+					role = "honest"
+				} else if si > 0 {
+					role = "restart"
+				}
+				g.Emit(s.line(), !c.honest, "lookup/"+role, "lookup/"+kind)
+				emitted++
+				if g.Intn(3) == 0 {
+					if m, tag := c01MutateSession(g, s); m != nil {
+						g.Emit(m.line(), true, "lookup/mut-"+tag)
+						emitted++
+					}
+				}
 			}
 			if l, ok := clLatestTrace(out, true); ok {
 				g.Emit(l, !c.honest, "trace/"+strings.SplitN(c.tag, "/", 2)[0])
+				emitted++
 			} else {
 				g.st.Tags["trace-not-expressible"]++
 			}
 		}
+	}
+	// O3 and a GONOSUMDB instance, as replay sessions
+	w := clGetWorld(1, 5, 0, 0)
+	o := w.A.recs[0]
+	op, _ := clLookupFile(o.path, o.vers)
+	for _, line := range []string{
+		fmt.Sprintf("client.run w=1:5:0:0 h=2 f+=L/swap/%s new=0 look=0:x%s:%s", hx(op), hx("go.sum"), hx("database")),
+		fmt.Sprintf("client.run w=1:5:0:0 h=2 nosumdb=0:%s new=0 look=0:A0 look=0:A1 look=0:A2", hx(w.A.recs[0].path+",*.corp.example")),
+	} {
+		sc, _ := clParseScenario(strings.Fields(line)[1:])
+		for _, s := range clSessions(clRunScenario(sc)) {
+			g.Emit(s.line(), true, "lookup/special")
+		}
+	}
+}
+
+// c01MutateSession perturbs a replay session directly (the environment of the op is explicit, so any perturbation is
+// again a well-defined environment for both sides).
+func c01MutateSession(g *Gen, s *clSession) (*clSession, string) {
+	m := &clSession{h: s.h, nosumdb: s.nosumdb, pub: s.pub, looks: s.looks}
+	m.reads = append([]clReplayRead(nil), s.reads...)
+	m.writes = append([]string(nil), s.writes...)
+	switch g.Intn(5) {
+	case 0:
+		// ErrWriteConflict before the recorded results; the configuration is then read again: repeat its last answer
+		m.writes = append([]string{"c"}, m.writes...)
+		for i := len(m.reads) - 1; i >= 0; i-- {
+			if m.reads[i].kind == "f" && strings.HasSuffix(m.reads[i].file, "/latest") {
+				m.reads = append(m.reads, m.reads[i])
+				break
+			}
+		}
+		if g.Intn(3) == 0 {
+			m.writes = append([]string{"c", "c"}, m.writes...)
+		}
+		return m, "conflict"
+	case 1:
+		if len(m.reads) == 0 {
+			return nil, ""
+		}
+		i := g.Intn(len(m.reads))
+		m.reads[i].ok, m.reads[i].data = false, nil
+		return m, "lost-answer"
+	case 2:
+		var idx []int
+		for i, r := range m.reads {
+			if r.ok && len(r.data) > 0 {
+				idx = append(idx, i)
+			}
+		}
+		if len(idx) == 0 {
+			return nil, ""
+		}
+		i := idx[g.Intn(len(idx))]
+		d := append([]byte(nil), m.reads[i].data...)
+		d[g.Intn(len(d))] ^= 1 << uint(g.Intn(8))
+		m.reads[i].data = d
+		return m, "flip-answer"
+	case 3:
+		if len(m.writes) == 0 {
+			return nil, ""
+		}
+		m.writes[g.Intn(len(m.writes))] = "e"
+		return m, "write-refused"
+	default:
+		if len(m.looks) == 0 {
+			return nil, ""
+		}
+		m.nosumdb = []string{m.looks[0][0], "*.example.com,rsc.io", "golang.org/x,github.com/*/go-SDK", m.looks[0][0] + "/sub"}[g.Intn(4)]
+		return m, "nosumdb"
 	}
 }
 
